@@ -1,0 +1,103 @@
+//go:build verif
+
+// Contracts for package object, read by the verification engine in /verif (twv).
+// Comments only; compiled only with the build tag "verif".
+package object
+
+// Heap invariants, assumed where a value is loaded and asserted where one is stored:
+// object containers and scopes never hold a nil Object.
+//@ nonnil elems []Object
+//@ nonnil values map[string]Object
+//@ nonnil field object.Error.Err
+//@ nonnil field object.Use.Content
+//@ nonnil field object.Component.Content
+//@ nonnil field object.Env.store
+//@ nonnil field object.Slot.Content
+
+// the type name every implementation of Object reports (one row per implementation)
+//@ spec objType(o Object) ObjectType = ite(istype(o, *Int), INT_OBJ, ite(istype(o, *Float), FLOAT_OBJ,
+//@      ite(istype(o, *Bool), BOOL_OBJ, ite(istype(o, *Str), STR_OBJ, ite(istype(o, *Array), ARR_OBJ,
+//@      ite(istype(o, *Obj), OBJ_OBJ, ite(istype(o, *HTML), HTML_OBJ, ite(istype(o, *Use), USE_OBJ,
+//@      ite(istype(o, *Reserve), RESERVE_OBJ, ite(istype(o, *Block), BLOCK_OBJ, ite(istype(o, *Component), COMPONENT_OBJ,
+//@      ite(istype(o, *Slot), SLOT_OBJ, ite(istype(o, *Dump), DUMP_OBJ, ite(istype(o, *Break), BREAK_OBJ,
+//@      ite(istype(o, *Continue), CONTINUE_OBJ, ite(istype(o, *Nil), NIL_OBJ, ite(istype(o, *Error), ERR_OBJ, "?")))))))))))))))))
+
+//@ family object.Object.Type(this)
+//@   ensures result == objType(this)
+//@   modifies nothing
+//@ family object.Object.Is(this, t)
+//@   ensures result == (t == objType(this))
+//@   modifies nothing
+//@ family object.Object.String(this)
+//@   modifies nothing
+//@ family object.Object.Dump(this, ident)
+//@   requires ident >= 0
+//@   modifies nothing
+//@ family object.Object.Val(this)
+//@   modifies nothing
+
+// ---- scopes ----
+
+//@ func NewEnv
+//@   ensures fresh(result) && result.store != nil && fresh(result.store) && result.outer == nil && emptymap(result.store)
+//@   modifies nothing
+
+//@ func NewEnclosedEnv
+//@   ensures fresh(result) && result.store != nil && fresh(result.store) && result.outer == outer && emptymap(result.store)
+//@   modifies nothing
+
+//@ func (e *Env) Get
+//@   ensures result1 ==> result0 != nil
+//@   modifies nothing
+
+//@ func (e *Env) isTypeMismatch
+//@   requires val != nil
+//@   ensures result1 ==> result0 != nil
+//@   modifies nothing
+
+//@ func (e *Env) variableMismatchError
+//@   requires oldVar != nil && val != nil
+//@   ensures result != nil
+//@   modifies nothing
+
+// Set binds key in this scope only (never in an enclosing one), refuses the reserved name
+// and refuses to retype a visible name.
+//@ func (e *Env) Set
+//@   requires val != nil
+//@   ensures key == "loop" ==> result != nil
+//@   ensures result != nil ==> forallkey(e.store, k, has(old(e.store), k)) && forallkey(old(e.store), k, e.store[k] == old(e.store[k]))
+//@   ensures result == nil ==> key != "loop" && has(e.store, key) && e.store[key] == val
+//@   modifies contents(e.store)
+
+//@ func (e *Env) SetLoopVar
+//@   modifies contents(e.store)
+
+//@ func EnvFromMap
+//@   ensures result1 == nil ==> result0 != nil && fresh(result0)
+//@   modifies nothing
+
+//@ func NativeToObject
+//@   ensures istype(val, string) || istype(val, bool) || istype(val, int) || istype(val, float64) || istype(val, []any) ==> result != nil
+//@   modifies nothing
+//@ func nativeMapToObject
+//@   ensures result != nil
+//@   modifies nothing
+//@ func nativeStructToObject
+//@   requires val != nil
+//@   ensures result != nil
+//@   modifies nothing
+//@   loop 0: invariant i >= 0 && fresh(obj) && obj.Pairs != nil && fresh(obj.Pairs) && valType != nil
+//@ func nativeSliceToArrayObject
+//@   ensures result != nil
+//@   modifies nothing
+//@   loop 0: invariant rangeindex >= -1 && fresh(arr) && (refof(arr.Elements) == 0 || fresh(arr.Elements))
+//@ func convertToInterfaceSlice
+//@   requires kindof(slice) == 23
+//@   modifies nothing
+//@   loop 0: invariant i >= 0 && len(ret) == rlen(s) && fresh(ret)
+
+//@ func (f *Float) SubtractFromFloat
+//@   modifies f.Value
+
+//@ func (a *Array) Dump
+//@   loop 0: invariant out.Len() >= 8
